@@ -24,6 +24,7 @@ theorem sleepAlive_step {u : Int} {s s' : State} {l : Label} (h : SleepAlive s) 
     exact sleepAlive_upd h hops (fun _ => ha)
   | exit i => obtain ⟨o, _, _, _, _, hops, _⟩ := exit_spec hs; exact sleepAlive_upd h hops (fun e => by simp at e)
   | exitBegin i => obtain ⟨o, _, ha, _, _, _, _, hops⟩ := exitBegin_spec hs; exact sleepAlive_upd h hops (fun e => by simp at e)
+  | keepaliveFail i w => obtain ⟨o, _, _, _, _, _, hops⟩ := keepaliveFail_spec hs; exact sleepAlive_upd h hops (fun e => by simp at e)
   | exitEnd i => obtain ⟨o, _, _, _, _, _, _, hops⟩ := exitEnd_spec hs; exact sleepAlive_upd h hops (fun e => by simp at e)
   | exitLost i => obtain ⟨o, _, _, _, _, hops, _⟩ := exitLost_spec hs; exact sleepAlive_upd h hops (fun e => by simp at e)
   | kill i => obtain ⟨o, _, _, _, _, hops, _⟩ := kill_spec hs; exact sleepAlive_upd h hops (fun e => by simp at e)
@@ -168,6 +169,7 @@ theorem quiet_run {u : Int} {a : Identity} : ∀ (ls : List Label) (s s' : State
         | exit _ => exact absurd hql (by simp [Quiet])
         | exitLost _ => exact absurd hql (by simp [Quiet])
         | exitBegin _ => exact absurd hql (by simp [Quiet])
+        | keepaliveFail _ _ => exact absurd hql (by simp [Quiet])
         | exitEnd _ => exact absurd hql (by simp [Quiet])
         | kill _ => exact absurd hql (by simp [Quiet])
         | deliverStale i view vv =>
@@ -280,6 +282,7 @@ theorem now_mono_step {u : Int} {s s' : State} {l : Label} (h : step u s l = som
   | exit i => obtain ⟨_, _, _, e, _⟩ := exit_spec h; omega
   | exitLost i => obtain ⟨_, _, _, e, _⟩ := exitLost_spec h; omega
   | exitBegin i => obtain ⟨_, _, _, _, e, _⟩ := exitBegin_spec h; omega
+  | keepaliveFail i w => obtain ⟨_, _, _, e, _⟩ := keepaliveFail_spec h; omega
   | exitEnd i => obtain ⟨_, _, _, _, e, _⟩ := exitEnd_spec h; omega
   | kill i => obtain ⟨_, _, _, e, _⟩ := kill_spec h; omega
   | deliver i => obtain ⟨_, _, _, e, _⟩ := deliver_spec h; omega
